@@ -88,7 +88,7 @@ def main():
         case_digests[idx] = res["digest"]
         for v in res["violations"]:
             v["case_index"] = idx
-            lst = viol_by_sig.setdefault(v["sig_id"], [])
+            lst = viol_by_sig.setdefault((v["sig_id"], v.get("kf")), [])
             if len(lst) < 3:
                 lst.append(v)
             else:
@@ -98,7 +98,7 @@ def main():
             samples.append(res["sample"])
     # minimise the first violation of each signature (bounded)
     out_viol = []
-    for sig_id, lst in sorted(viol_by_sig.items()):
+    for sig_id, lst in sorted(viol_by_sig.items(), key=lambda kv: repr(kv[0])):
         v = lst[0]
         try:
             v = prop.minimise(v, budget_s=args.get("shrink_s", 15))
